@@ -203,6 +203,36 @@ pub fn key_sets(g: &mut G) -> Vec<(String, Vec<Vec<u8>>)> {
         keys.sort();
         sets.push((format!("widerec{}", n), keys));
     }
+    // dense tries: more keys than bytes (suffix sharing)
+    sets.push(("dense-bin8".to_string(), universe(b"ab", 8)));
+    {
+        let mut dec: Vec<Vec<u8>> = (0..1000).map(|i| format!("{:03}", i).into_bytes()).collect();
+        dec.sort();
+        sets.push(("dense-dec3".to_string(), dec));
+    }
+    if g.thorough {
+        let mut all2: Vec<Vec<u8>> = vec![];
+        for a in 0..=255u8 {
+            for b in 0..=255u8 {
+                all2.push(vec![a, b]);
+            }
+        }
+        sets.push(("dense-all2".to_string(), all2));
+    }
+    // a long node, a short node, then a node equal to short ++ tail(long), compiled back to
+    // back (siblings under the root): a cache cell refilled in place must not keep a stale tail
+    for alpha in [[b'a', b'b', b'c'], [0x00, 0x61, 0xff]] {
+        let mut keys: Vec<Vec<u8>> = vec![];
+        for &x in &alpha {
+            keys.push(vec![alpha[0], x]);
+        }
+        keys.push(vec![alpha[1], alpha[0]]);
+        for &x in &alpha {
+            keys.push(vec![alpha[2], x]);
+        }
+        keys.sort();
+        sets.push((format!("stale{}", alpha[1]), keys));
+    }
     // random structured
     let nrand = if g.thorough { 60 } else { 12 };
     for i in 0..nrand {
@@ -245,5 +275,27 @@ pub fn generate(prop: &str, tier: &str, seed: u64) {
     let mut out = std::io::BufWriter::new(stdout.lock());
     for l in &g.lines {
         writeln!(out, "{}", l).unwrap();
+    }
+}
+
+/// writes a few FSTs + their content listing into `dir` (committed as golden files)
+pub fn golden(dir: &str) {
+    std::fs::create_dir_all(dir).unwrap();
+    let mut rng = Rng::new(20260927);
+    let mut sets: Vec<(&str, Vec<Vec<u8>>, usize)> = vec![
+        ("empty", vec![], 0),
+        ("emptykey", vec![vec![]], 6),
+        ("words", random_words(&mut Rng::new(7), 300, b"etaoin shrdlu/.-", 9), 1),
+        ("fan256", fanout_keys(256, false, true, true), 4),
+        ("fan33", fanout_keys(33, true, false, false), 5),
+        ("bin8", universe(b"ab", 8), 2),
+        ("months", vec![b"apr".to_vec(), b"aug".to_vec(), b"dec".to_vec(), b"feb".to_vec(), b"jan".to_vec(), b"jul".to_vec(), b"jun".to_vec(), b"mar".to_vec(), b"may".to_vec(), b"nov".to_vec(), b"oct".to_vec(), b"sep".to_vec()], 7),
+    ];
+    for (name, keys, pat) in sets.drain(..) {
+        let kv = values(&keys, pat, &mut rng);
+        let bytes = crate::sink::vec_build(0, &ins_calls(&kv)).unwrap();
+        std::fs::write(format!("{}/{}.fst", dir, name), &bytes).unwrap();
+        let listing: Vec<String> = kv.iter().map(|(k, v)| format!("{}:{}", hex(k), v)).collect();
+        std::fs::write(format!("{}/{}.kv", dir, name), listing.join(",")).unwrap();
     }
 }
